@@ -489,6 +489,12 @@ class Terms:
                 # functools.partial(f, a..)(x..) -> f(a.., x..)
                 fn = ("const", v.func)
                 args = tuple(_const(a) for a in v.args) + args
+            # pad bytes of a struct format are zero-valued integer fields: Struct("<4xQ").pack(c) is read as
+            # Struct("<LQ").pack(0, c) - one spelling of "four zero bytes, then the counter"
+            if isinstance(fn[1], StructMethod) and fn[1].method == "pack" and "x" in fn[1].struct.fmt:
+                canon = _canon_pad(fn[1].struct.fmt, args)
+                if canon is not None:
+                    fn, args = ("const", StructMethod(StructConst(canon[0]), "pack")), canon[1]
         site = self._site(f, e)
         call_t = ("call", fn, args, kwargs, site)
         # folding simple pure calls on constants
@@ -659,6 +665,40 @@ def _project(t, path) -> tuple:
         else:
             t = _sub(t, _const(i))
     return t
+
+
+def _canon_pad(fmt: str, args):
+    """(format without pad codes, arguments with a constant 0 for every replaced pad run) or None"""
+    import re
+
+    m = re.fullmatch(r"([@=<>!]?)((?:\d*[a-zA-Z?])+)", fmt)
+    if not m or m.group(1) not in ("<", ">", "!", "="):
+        return None
+    out_fmt, out_args, ai = m.group(1), [], 0
+    sizes = {1: "B", 2: "H", 4: "L", 8: "Q"}
+    for cnt, code in re.findall(r"(\d*)([a-zA-Z?])", m.group(2)):
+        n = int(cnt) if cnt else 1
+        if code == "x":
+            if n not in sizes:
+                return None
+            out_fmt += sizes[n]
+            out_args.append(("const", 0))
+        elif code in "sp":
+            out_fmt += cnt + code
+            if ai >= len(args):
+                return None
+            out_args.append(args[ai])
+            ai += 1
+        else:
+            out_fmt += cnt + code
+            for _ in range(n):
+                if ai >= len(args):
+                    return None
+                out_args.append(args[ai])
+                ai += 1
+    if ai != len(args):
+        return None
+    return out_fmt, tuple(out_args)
 
 
 def _fold_call(fn, args, kwargs):
